@@ -1,0 +1,5 @@
+//go:build verif
+
+package types
+
+//@ pure func BoolToUint8(b bool) uint8
